@@ -2052,3 +2052,78 @@ func e1GenSlowHistory(rng *verifkit.Rand) *E1History {
 	}
 	return h
 }
+
+// e1GenShrinkKeptHistory: N traces are decided one after the other (distinct deadlines, so the order of the kept
+// records is known); most are kept BECAUSE OF THEIR ROOT (rules: keep iff some span has error=yes / iff a root is
+// present — only the root carries it), some are dropped. Then a reload shrinks SampleCache.KeptSize to k per
+// worker (3 ≤ k < kept traces), optionally twice. Afterwards ONLY the globally newest ≤ k kept traces receive late
+// spans (children that on their own would be dropped): whatever the worker assignment, those are among the
+// newest k of their worker, so a correct Resize still remembers them and E1SurelyRetained (MinKept = k) holds
+// for them — fewer than k other traces use the kept LRU after their decision.
+func e1GenShrinkKeptHistory(rng *verifkit.Rand) *E1History {
+	tick := 100 * time.Millisecond
+	workers := verifkit.Pick(rng, 1, 1, 2, 3)
+	errDef := E1SamplerDef{Kind: "rules-error-field", Choice: &config.V2SamplerChoice{RulesBasedSampler: &config.RulesBasedSamplerConfig{Rules: []*config.RulesBasedSamplerRule{
+		{Name: "has-error", SampleRate: 1, Conditions: []*config.RulesBasedSamplerCondition{e1Cond("error", "=", "yes")}},
+		{Name: "no-error", Drop: true},
+	}}}, Predict: func(string, bool) (bool, bool) { return false, false }}
+	rootDef := E1SamplerDef{Kind: "rules-has-root", Choice: &config.V2SamplerChoice{RulesBasedSampler: &config.RulesBasedSamplerConfig{Rules: []*config.RulesBasedSamplerRule{
+		{Name: "rooted", SampleRate: verifkit.Pick(rng, 1, 1), Conditions: []*config.RulesBasedSamplerCondition{{Operator: config.HasRootSpan, Value: true}}},
+		{Name: "rootless", Drop: true},
+	}}}, Predict: func(string, bool) (bool, bool) { return false, false }}
+	h := &E1History{Defs: map[string]E1SamplerDef{"env-a": errDef, "env-b": rootDef}}
+	h.Cfg = E1Config{Workers: workers, AddRuleReason: rng.Bool(),
+		Traces:   config.TracesConfig{SendTicker: config.Duration(tick), SendDelay: config.Duration(200 * time.Millisecond), TraceTimeout: config.Duration(verifkit.Pick(rng, 1000, 2000) * int(time.Millisecond))},
+		Samplers: map[string]*config.V2SamplerChoice{"env-a": errDef.Choice, "env-b": rootDef.Choice}}
+	nextID := 0
+	mk := func(pl *e1TracePlan, kind string, marked bool) E1Span {
+		nextID++
+		pl.Spans++
+		f := map[string]any{"svc": pl.Svc, "n": int64(pl.Spans)}
+		if marked {
+			f["error"] = "yes"
+		}
+		return E1Span{ID: fmt.Sprintf("s%d", nextID), Trace: pl.ID, Kind: kind, Peer: rng.Chance(0.3), Rate: pl.Rate, Env: pl.Env, Dataset: "ds-" + pl.Env, Fields: f}
+	}
+	span := func(s E1Span) { h.Steps = append(h.Steps, e1Step{Op: "span", Spans: []E1Span{s}}) }
+	var kept []*e1TracePlan // in decision order
+	n := rng.Range(8, 20)
+	for j := 0; j < n; j++ {
+		pl := &e1TracePlan{ID: rng.Hex(32), Env: verifkit.Pick(rng, "env-a", "env-b"), Svc: "api", Rate: uint(verifkit.Pick(rng, 0, 1, 2)), Keep: rng.Chance(0.8)}
+		h.Plans = append(h.Plans, pl)
+		if rng.Bool() {
+			span(mk(pl, "child", false))
+		}
+		if pl.Keep {
+			span(mk(pl, "root", true)) // env-a: error on the root; env-b: the root itself
+			kept = append(kept, pl)
+		} else {
+			span(mk(pl, "child", false)) // rootless, no error: dropped at TraceTimeout
+		}
+		h.Steps = append(h.Steps, e1Step{Op: "advance", Dur: tick}) // next trace's root arrives one tick later ⇒ decided one tick later
+	}
+	h.Steps = append(h.Steps, e1Step{Op: "advance", Dur: 300 * time.Millisecond}) // every rooted trace is decided now, in arrival order
+	k := 3
+	if len(kept) > 4 {
+		k = rng.Range(3, len(kept)-1)
+	}
+	h.MinKept = k
+	if rng.Chance(0.3) { // shrink in two steps
+		h.Steps = append(h.Steps, e1Step{Op: "resize", Kept: uint(workers * (k + rng.Range(1, 4)))})
+	}
+	h.Steps = append(h.Steps, e1Step{Op: "resize", Kept: uint(workers * k)}) // KeptSizePerWorker = k
+	newest := kept
+	if len(newest) > k {
+		newest = newest[len(newest)-k:]
+	}
+	for _, i := range rng.Perm(len(newest)) {
+		pl := newest[i]
+		for c := rng.Range(1, 2); c > 0; c-- {
+			span(mk(pl, verifkit.Pick(rng, "child", "child", "event"), false)) // alone it would be dropped
+		}
+		if rng.Chance(0.3) {
+			h.Steps = append(h.Steps, e1Step{Op: "advance", Dur: tick})
+		}
+	}
+	return h
+}
